@@ -249,8 +249,15 @@ CLAIMED = {
              "score must EQUAL the optimum (and a path is found iff one exists), with default/narrow beams it must not exceed it. "
              "Grammar shapes: branching into and out of states with differing neighbouring phones, one-/two-/three-phone words, "
              "fillers, null chains, loops, alternates, weights, random JSGF and FSG; audio excerpts of 6-120 frames (thorough: "
-             "also the full 278-frame recording).",
-        note="The (phone, left, right, position) -> senone-sequence lookup is taken from the implementation's tables; how "
+             "also the full 278-frame recording); words added at run time with pronunciations no dictionary word prepared "
+             "the context tables for. The mechanism the property names 'history entry insertion keeps only entries not "
+             "dominated on score and right-context set' has its own model (HistoryDom: the list discipline transcribed, "
+             "Layer A = per bucket and right context the best offered score survives; negative control = subtraction using "
+             "the wrong machine word): every edge of its graph and seeded random frames are executed on the real table "
+             "through fsg_history_entry_add / fsg_history_end_frame under several mappings of contexts to bit positions, and "
+             "HistoryTrace evaluates Layer A on the real lists after every call.",
+        note="The (phone, left, right, position) -> senone-sequence lookup is taken from the model definition "
+             "(bin_mdef_phone_id_nearest), not from the dict2pid tables or the lextree; how "
              "the models are wired into the search is what is checked. Decoder conventions are stated in the module (one-phone "
              "words take silence as right context; the last word may use any right context possible at its exit state). With "
              "pruning, a result that does not reach the last frame is not compared. Trusted: TLC, recorder. One genuine defect "
